@@ -604,7 +604,7 @@ fn build(plan: &WirePlan, w: &World, op: &WireOp) -> Built {
         o => format!("{o:?}").chars().take(24).collect(),
     });
     Built {
-        wire: WireReq { method, path, headers, chunks, fail_after, empties },
+        wire: WireReq { method, path, headers, chunks, fail_after, empties, pending_seed: None },
         class,
         cid_bad,
         cid_ambiguous,
